@@ -59,6 +59,17 @@ func GuardsOfBlock(b *ssa.BasicBlock) []Guard {
 		var common []Guard
 		for k, s := range sites {
 			gs := plainGuardsOfBlock(s.Block())
+			for _, x := range siteExtra[s] {
+				dup := false
+				for _, g := range gs {
+					if g.Cond == x.Cond && g.Pol == x.Pol {
+						dup = true
+					}
+				}
+				if !dup {
+					gs = append(gs, x)
+				}
+			}
 			if k == 0 {
 				common = gs
 				continue
@@ -87,6 +98,29 @@ func GuardsOfBlock(b *ssa.BasicBlock) []Guard {
 		}
 	}
 	return out
+}
+
+// siteExtra: conditions that hold in addition to the dominating ones when a flag becomes true at a site (see trueSites).
+var siteExtra = map[ssa.Instruction][]Guard{}
+
+// ifTesting: the If instruction that branches on v (possibly through negations).
+func ifTesting(v ssa.Value) *ssa.If {
+	if v.Referrers() == nil {
+		return nil
+	}
+	for _, r := range *v.Referrers() {
+		switch x := r.(type) {
+		case *ssa.If:
+			return x
+		case *ssa.UnOp:
+			if x.Op == token.NOT {
+				if iff := ifTesting(x); iff != nil {
+					return iff
+				}
+			}
+		}
+	}
+	return nil
 }
 
 func plainGuardsOfBlock(b *ssa.BasicBlock) []Guard {
@@ -879,6 +913,17 @@ func trueSites(v ssa.Value, seen map[ssa.Value]bool) (sites []ssa.Instruction, o
 			}
 			s, k := trueSites(ed, seen)
 			if !k {
+				// a computed boolean (`return !ok` of an inlined predicate): the flag is true through this edge only
+				// if that value is — the end of the predecessor is a true-site that carries the value as a condition
+				if b, isB := ed.Type().Underlying().(*types.Basic); isB && b.Kind() == types.Bool {
+					if iff := ifTesting(x); iff != nil {
+						p := x.Block().Preds[i]
+						site := p.Instrs[len(p.Instrs)-1]
+						siteExtra[site] = append(siteExtra[site], Guard{ed, true, iff})
+						sites = append(sites, site)
+						continue
+					}
+				}
 				return nil, false
 			}
 			sites = append(sites, s...)
